@@ -482,12 +482,67 @@ def run_pa_pole(block, ctx):
     ctx.sample(block[0])
 
 
+# -- a call right after a call whose parameter differs by a hair ------------------------------------
+
+NEAR_DELTAS = [3e-9, -3e-9, 1e-8, -1e-8, 3e-8, -3e-8, 1e-7, -1e-6]        # degrees
+NEAR_DIRS = [(10.0, 20.0), (200.0, -45.0), (95.0, -5.0), (330.0, 60.0)]
+
+
+def check_near_param(case):
+    """f(x; p) is called first, then f(x; p + d) with |d| = 3e-9 .. 1e-6 degree (and the other way
+    round); every result is compared with the rotation-matrix image for ITS OWN parameter, so a result
+    remembered from the neighbouring parameter (a cache that takes nearly equal parameters for equal)
+    shows as an image error of the size of d."""
+    pair, par = case["pair"], case["par"]
+    kf, kb, fwd, back, _, _ = PAIRS[pair]
+    out = []
+    for d in NEAR_DELTAS:
+        for (pa, pb) in ((par, par + d), (par + d, par)):
+            for lo, la in NEAR_DIRS:
+                try:
+                    fwd(Angle(lo), Angle(la), pa)
+                    l1, b1 = fwd(Angle(lo), Angle(la), pb)
+                    il, ib = image(kf, lo, la, pb)
+                    e1 = S.sep_ll(il, ib, l1._deg, b1._deg)
+                    back(Angle(lo), Angle(la), pa)
+                    l2, b2 = back(Angle(lo), Angle(la), pb)
+                    jl, jb = image(kb, lo, la, pb)
+                    e2 = S.sep_ll(jl, jb, l2._deg, b2._deg)
+                except Exception as ex:
+                    out.append(("near_exception", "%s near-parameter sequence raised %r" % (pair, ex), None))
+                    continue
+                if e1 > TOL or e2 > TOL:
+                    out.append(("near_parameter", "%s with parameter %r right after a call with %r: image of (%r, %r) "
+                                "off by %.3g deg (forward) / %.3g deg (backward)" % (pair, pb, pa, lo, la, e1, e2),
+                                max(e1, e2)))
+    return out
+
+
+def near_param_cases():
+    return ([{"pair": "ecliptical", "par": e} for e in OBLS + [23.4457889, 84381.448 / 3600.0]] +
+            [{"pair": "horizontal", "par": p} for p in PHIS if abs(p) < 89.99999] +
+            [{"pair": "horizontal", "par": p} for p in (51.4778, -33.356111, 12.5)])
+
+
+def run_near_param(block, ctx):
+    for case in block:
+        ctx.evals += 4 * len(NEAR_DELTAS) * 2 * len(NEAR_DIRS)
+        ctx.traces += len(NEAR_DELTAS) * 2
+        ctx.nt_count += 1
+        for site, msg, dev in check_near_param(case):
+            ctx.viol(case, msg, dev=dev, site=site)
+        ctx.outcome((case["pair"], case["par"]))
+    ctx.sample(block[0])
+
+
 def clauses(tier):
     return [
         Clause("directions", chunks(dir_cases(tier), 64), run_dirs,
                lambda c: [m for _, m, _ in check_dir(c)], floor=2000),
         Clause("shared_objects", [[{"pair": k} for k in PAIRS]], run_shared,
                lambda c: [m for _, m, _ in check_shared(c)], floor=3, shape="H"),
+        Clause("near_parameters", chunks(near_param_cases(), 8), run_near_param,
+               lambda c: [m for _, m, _ in check_near_param(c)], floor=15, shape="H"),
         Clause("rigidity", chunks(pair_cases(), 18), run_pairs,
                lambda c: [m for _, m, _ in check_pairs(c)], floor=10),
         Clause("metric", chunks(metric_cases(tier), 16), run_metric,
